@@ -121,7 +121,9 @@ pub fn rebuild_archive<P: AsRef<Path>>(
 
     // Phase 2: Extract files and metadata
     log::debug!("Phase 2: Extracting files and metadata");
-    let extracted_files =
+    // `listed_count` is the number of source entries considered; the summary counts refer
+    // to it (get_info().file_count can differ, e.g. it leaves out empty files)
+    let (extracted_files, listed_count) =
         extract_files_with_metadata(&mut source, &metadata, &options, &progress_callback)?;
 
     let extracted_count = extracted_files.len();
@@ -129,9 +131,9 @@ pub fn rebuild_archive<P: AsRef<Path>>(
 
     if options.list_only {
         return Ok(RebuildSummary {
-            source_files: metadata.file_count,
+            source_files: listed_count,
             extracted_files: extracted_count,
-            skipped_files: metadata.file_count - extracted_count,
+            skipped_files: listed_count - extracted_count,
             target_format: determine_target_format(&metadata, &options),
             verified: false,
         });
@@ -160,9 +162,9 @@ pub fn rebuild_archive<P: AsRef<Path>>(
     };
 
     Ok(RebuildSummary {
-        source_files: metadata.file_count,
+        source_files: listed_count,
         extracted_files: extracted_count,
-        skipped_files: metadata.file_count - extracted_count,
+        skipped_files: listed_count - extracted_count,
         target_format,
         verified,
     })
@@ -210,16 +212,14 @@ fn extract_files_with_metadata(
     metadata: &ArchiveMetadata,
     options: &RebuildOptions,
     progress_callback: &Option<ProgressCallback>,
-) -> Result<Vec<(Vec<u8>, FileMetadata)>> {
-    // Get file list, preferring the most complete method
-    let files = if metadata.has_het_bet {
-        archive
-            .list_all_with_hashes()
-            .unwrap_or_else(|_| archive.list().unwrap_or_default())
-    } else {
-        archive
-            .list()
-            .unwrap_or_else(|_| archive.list_all().unwrap_or_default())
+) -> Result<(Vec<(Vec<u8>, FileMetadata)>, usize)> {
+    // Named entries (from the listfile) are the only ones `read_file` can resolve; the
+    // anonymous enumerations yield synthetic `file_NNNNNNNN.dat` names and are a last
+    // resort for archives without a usable listfile.
+    let files = match archive.list() {
+        Ok(files) if !files.is_empty() => files,
+        _ if metadata.has_het_bet => archive.list_all_with_hashes().unwrap_or_default(),
+        _ => archive.list_all().unwrap_or_default(),
     };
 
     let mut extracted_files = Vec::new();
@@ -272,7 +272,7 @@ fn extract_files_with_metadata(
         extracted_files.sort_by_key(|(_, meta)| meta.original_index);
     }
 
-    Ok(extracted_files)
+    Ok((extracted_files, total_files))
 }
 
 /// Rebuild the archive with extracted files
